@@ -126,7 +126,10 @@ func genScSpec(rng *rand.Rand, i int) scSpec {
 			cur = t
 		}
 	}
-	tpls := []string{"", "r={{.PC_REPLICA_NUM}}", "v={{.LV}} r={{.PC_REPLICA_NUM}}", "g={{.GV}}-{{.PC_REPLICA_NUM}}", "n={{.GN}}", "ln={{.LN}}"}
+	tpls := []string{"", "r={{.PC_REPLICA_NUM}}", "v={{.LV}} r={{.PC_REPLICA_NUM}}", "g={{.GV}}-{{.PC_REPLICA_NUM}}", "n={{.GN}}", "ln={{.LN}}",
+		// integer variables used as numbers (comparison, %d): their type must be
+		// the same in a replica added by scaling as after a load (C13-r4-2)
+		"c={{if lt .PC_REPLICA_NUM 2}}lo{{else}}hi{{end}}", `p={{printf "%03d" .PC_REPLICA_NUM}}`, "e={{if eq .PC_REPLICA_NUM 0}}first{{end}}"}
 	sp.CmdRest = tpls[rng.Intn(len(tpls))]
 	sp.Descr = tpls[rng.Intn(len(tpls))]
 	if rng.Intn(2) == 0 {
